@@ -931,13 +931,13 @@ def plan(tier, seed):
         for call in ('sid', 'all'):
             for when in ('before', 'during'):
                 cases.append({'slowdisc': [srv, call, when]})
-    for srv in SRV[:2]:
+    for srv in SRV[:2] + ['W']:   # (W: the real simple_websocket driver)
         for b_when in ('before-probe', 'after-probe', 'probes-early'):
             for b_act in ('wrong-first', 'close', 'probe-then-wrong',
                           'probe-then-close', 'probe-then-upgrade'):
                 for a_end in ('client-close', 'disconnect', 'silence'):
                     cases.append({'compete': [srv, b_when, b_act, a_end]})
-    for srv in SRV:
+    for srv in SRV + ['W']:
         for a_probed in (0, 1):
             for a_how in ('wrong', 'close'):
                 for b_probed in (0, 1):
